@@ -119,6 +119,10 @@ Definition store (p : pvars) (m : mem) (i v : Z) : pvars * mem :=
     | None => (p, fault m 3)
     end.
 
+(* pbuff[offset] = v; offset++ *)
+Definition fill (p : pvars) (m : mem) (v : Z) : pvars * mem :=
+  let '(p', m') := store p m (offs p) v in (set_offs p' (offs p + 1), m').
+
 (* the terminator written when a value ends *)
 Definition terminate (p : pvars) (m : mem) : pvars * mem :=
   if offs p <? bsize p then store p m (offs p) 0 else store p m (bsize p - 1) 0.
@@ -143,7 +147,7 @@ Definition proto_body (fx : fixes) (seg : list Z) (p : pvars) (m : mem) (a : Z) 
   if cur p1 =? VAR_PRO then
     let '(p2, m2) :=
       if fx_pro fx && negb (a1 <? n) then (p1, m1)
-      else let '(p', m') := store p1 (chk seg a1 m1) (offs p1) (rd seg a1) in (set_offs p' (offs p1 + 1), m') in
+      else fill p1 (chk seg a1 m1) (rd seg a1) in
     if (bsize p2 <=? offs p2) || (n - 1 <=? a1) || (rd seg a1 =? 38) then
       let '(p3, m3) := terminate p2 m2 in
       let p4 := close_var p3 in
@@ -233,50 +237,59 @@ Definition action (sg : bool) (p : pvars) (m : mem) : mem :=
   else if v =? VAR_TC3 then cf (setb c (O_TiltControlType + 3) (digit0 p))
   else m.
 
-(* one iteration of the for loop at index a (a < len); returns the next a.
-   `chk` marks every read of pdata, in the order and under the short-circuit conditions of the C code *)
-Definition vars_body (sg : bool) (seg : list Z) (p : pvars) (m : mem) (a : Z) : Z * pvars * mem :=
+(* one iteration of the for loop at index a (a < len), in three parts; `chk` marks every read of
+   pdata, in the order and under the short-circuit conditions of the C code *)
+(* 1. no variable open: look for `xyz=` *)
+Definition vb_open (seg : list Z) (p : pvars) (m : mem) (a : Z) : pvars * mem * Z :=
   let n := len seg in
-  let '(p1, m1, a1) :=
-    if cur p =? 0 then
-      if 4 <=? n - a then
-        let m := chk seg (a + 3) m in
-        if rd seg (a + 3) =? 61 then
-          let m := chk seg (a + 2) (chk seg (a + 1) (chk seg a m)) in
-          let '(p', m') :=
-            match find_var (rd seg a) (rd seg (a + 1)) (rd seg (a + 2)) with
-            | Some r =>
-              let m0 := if nthz r 5 =? 3 then (match cmd m with None => set_cmd m (Some (zeros CMD_SIZE)) | Some _ => m end) else m in
-              if guard_ok r (ncfg m) then (open_var p (nthz r 0) (nthz r 5) (nthz r 6) (nthz r 4), m0) else (p, m0)
-            | None => (p, m)
-            end in
-          (set_offs p' 0, m', a + 4)
-        else (p, m, a)
+  if cur p =? 0 then
+    if 4 <=? n - a then
+      let m := chk seg (a + 3) m in
+      if rd seg (a + 3) =? 61 then
+        let m := chk seg (a + 2) (chk seg (a + 1) (chk seg a m)) in
+        let '(p', m') :=
+          match find_var (rd seg a) (rd seg (a + 1)) (rd seg (a + 2)) with
+          | Some r =>
+            let m0 := if nthz r 5 =? 3 then (match cmd m with None => set_cmd m (Some (zeros CMD_SIZE)) | Some _ => m end) else m in
+            if guard_ok r (ncfg m) then (open_var p (nthz r 0) (nthz r 5) (nthz r 6) (nthz r 4), m0) else (p, m0)
+          | None => (p, m)
+          end in
+        (set_offs p' 0, m', a + 4)
       else (p, m, a)
-    else (p, m, a) in
-  if cur p1 =? 0 then (a1 + 1, p1, m1) else
-  let '(p2, m2, a2) :=
-    if (offs p1 <? bsize p1) && (a1 <? n) then
-      let m1 := chk seg a1 m1 in
-      if negb (rd seg a1 =? 38) then
-        if (rd seg a1 =? 37) && (a1 + 2 <? n) then
-          let m1 := chk seg (a1 + 2) (chk seg (a1 + 1) m1) in
-          let '(p', m') := store p1 m1 (offs p1) (u8 (hex2 (rd seg (a1 + 1)) (rd seg (a1 + 2)))) in (set_offs p' (offs p1 + 1), m', a1 + 2)
-        else if rd seg a1 =? 43 then
-          let '(p', m') := store p1 m1 (offs p1) 32 in (set_offs p' (offs p1 + 1), m', a1)
-        else
-          let '(p', m') := store p1 m1 (offs p1) (rd seg a1) in (set_offs p' (offs p1 + 1), m', a1)
-      else (p1, m1, a1)
-    else (p1, m1, a1) in
-  let closing :=
+    else (p, m, a)
+  else (p, m, a).
+(* 2. a variable is open: take one character of its value *)
+Definition vb_fill (seg : list Z) (p1 : pvars) (m1 : mem) (a1 : Z) : pvars * mem * Z :=
+  let n := len seg in
+  if (offs p1 <? bsize p1) && (a1 <? n) then
+    let m1 := chk seg a1 m1 in
+    if negb (rd seg a1 =? 38) then
+      if (rd seg a1 =? 37) && (a1 + 2 <? n) then
+        let m1 := chk seg (a1 + 2) (chk seg (a1 + 1) m1) in
+        let '(p', m') := fill p1 m1 (u8 (hex2 (rd seg (a1 + 1)) (rd seg (a1 + 2)))) in (p', m', a1 + 2)
+      else if rd seg a1 =? 43 then
+        let '(p', m') := fill p1 m1 32 in (p', m', a1)
+      else
+        let '(p', m') := fill p1 m1 (rd seg a1) in (p', m', a1)
+    else (p1, m1, a1)
+  else (p1, m1, a1).
+(* 3. end of the value: buffer full, last byte of the segment, or '&' *)
+Definition vb_close (sg : bool) (seg : list Z) (p2 : pvars) (m2 : mem) (a2 : Z) : Z * pvars * mem :=
+  let n := len seg in
+  let '(cl, m2) :=
     if bsize p2 <=? offs p2 then (true, m2)
     else if n - 1 <=? a2 then (true, m2)
     else let m2 := chk seg a2 m2 in (rd seg a2 =? 38, m2) in
-  let '(cl, m2) := closing in
   if cl then
     let '(p3, m3) := terminate p2 m2 in
     (a2 + 1, close_var p3, action sg p3 m3)
   else (a2 + 1, p2, m2).
+
+Definition vars_body (sg : bool) (seg : list Z) (p : pvars) (m : mem) (a : Z) : Z * pvars * mem :=
+  let '(p1, m1, a1) := vb_open seg p m a in
+  if cur p1 =? 0 then (a1 + 1, p1, m1) else
+  let '(p2, m2, a2) := vb_fill seg p1 m1 a1 in
+  vb_close sg seg p2 m2 a2.
 
 Fixpoint vars_loop (fuel : nat) (sg : bool) (seg : list Z) (p : pvars) (m : mem) (a : Z) : pvars * mem :=
   match fuel with
@@ -385,15 +398,15 @@ Definition restore_password (fx : fixes) (old c : list Z) (m : mem) : mem :=
   if (oldmail <? Z_Email) && (newmail <? Z_Email) then
     let part := strnlen (slice old (O_Email + oldmail + 1) (Z_Email - oldmail - 1)) (Z_Email - oldmail - 1) in
     if part <? Z_Email - oldmail - 1 then
-      if fx_clip fx then
-        let part' := if Z_Email - newmail - 1 <=? part then Z_Email - newmail - 2 else part in
-        if 0 <=? part' then
-          set_ncfg m (blit c1 (O_Email + newmail + 1) (slice old (O_Email + oldmail + 1) part' ++ [0]))
-        else set_ncfg m c1
-      else
-        let part' := if Z_Email - newmail - 1 <=? part then Z_Email - newmail - 1 else part in
-        let m := if newmail + 1 + part' + 1 <=? Z_Email then m else fault m 3 in
-        set_ncfg m (blit c1 (O_Email + newmail + 1) (slice old (O_Email + oldmail + 1) (part' + 1)))
+      (* the bytes copied behind the new e-mail: the repaired code cuts the tail so that its terminator
+         stays inside the field and writes the terminator itself *)
+      let room := Z_Email - newmail - 1 in
+      let part' := if room <=? part then (if fx_clip fx then room - 1 else room) else part in
+      if fx_clip fx && (part' <? 0) then set_ncfg m c1 else
+      let bytes := if fx_clip fx then slice old (O_Email + oldmail + 1) part' ++ [0]
+                   else slice old (O_Email + oldmail + 1) (part' + 1) in
+      let m := if newmail + 1 + len bytes <=? Z_Email then m else fault m 3 in
+      set_ncfg m (blit c1 (O_Email + newmail + 1) bytes)
     else set_ncfg m c1
   else set_ncfg m (upd c1 (O_LocationPwd + PWD_MAX - 1) 0).
 
